@@ -98,6 +98,10 @@ fn weird_u64(rng: &mut Rng, around: u64) -> u64 {
 /// A crashed batch: an ACTIVE journal (newest generation) naming the extents of live records in
 /// allocation order, i.e. not sorted by sector.
 pub fn pending_batch_journal(rng: &mut Rng, img: &mut Vec<u8>) -> Option<&'static str> {
+    pending_batch_journal_opt(rng, img, false)
+}
+
+pub fn pending_batch_journal_opt(rng: &mut Rng, img: &mut Vec<u8>, force_marker: bool) -> Option<&'static str> {
     let version = image_version(img);
     let mut pool = head_sectors(img);
     if pool.len() < 2 {
@@ -117,7 +121,7 @@ pub fn pending_batch_journal(rng: &mut Rng, img: &mut Vec<u8>) -> Option<&'stati
     let enc = pure::journal_encode_active(1 << 40, &exts).ok()?;
     let base = (1 + 3 * slot) * B;
     img[base..base + enc.len()].copy_from_slice(&enc);
-    if rng.chance(1, 3) {
+    if force_marker || rng.chance(1, 3) {
         // ... and a valid retirement marker in FRONT of the lowest journaled extent whose count
         // reaches to its end or beyond: a scan that virtualises the journal (read-only open) jumps
         // over the journaled extent without ever standing inside it
